@@ -31,6 +31,11 @@ def main():
             for is_set in sets:
                 plan.append(dict(dump=fn, fam=fam, is_set=is_set, emb='ext' if len(plan) % 2 else 'mid', leaf=lf,
                                  internal=it, nkeys=nk, indices=idx, keep_pickles=40))
+                if fam != 'OO':
+                    # the same histories with keys and values offered as instances of subclasses of int / float / bytes
+                    # (bool, user classes): stored and pickled as plain numbers / strings by both implementations
+                    plan.append(dict(dump=fn, fam=fam, is_set=is_set, emb='mid' if len(plan) % 2 else 'ext', leaf=lf,
+                                     internal=it, nkeys=nk, indices=idx[:60] if quick else idx[:1500], keep_pickles=0, argtype='sub'))
     results = jobs.run_jobs('harness.workers.state_worker', plan)
     stage2 = []
     for job, res, err in results:
